@@ -353,9 +353,15 @@ func c15MakeBase(seed uint64, variant int) *c15Base {
 	}
 	// the trace shape comes first on the shared table: its generated key is the
 	// superset, so both shapes can be inserted (what a later shape gets is C16's subject)
-	igs := []any{igA, igB, igD, igC}
+	// an integration that declares no column at all: only the automatically added identity fields are stored (one row
+	// per transaction); its table name and index entry are identifiers like any other
+	igF := map[string]any{
+		"name": "ig-f", "enabled": true, "sources": []any{srcRef("src-b")},
+		"table": map[string]any{"name": "t_f", "columns": []any{}, "index": []any{strs("block_num desc")}},
+	}
+	igs := []any{igA, igB, igD, igC, igF}
 	if variant%3 == 2 {
-		igs = []any{igD, igA, igC, igB}
+		igs = []any{igD, igA, igC, igB, igF}
 	}
 	b.doc = map[string]any{
 		"dashboard": map[string]any{"root_password": "s3cret-pw", "enable_loopback_authn": true},
